@@ -672,6 +672,7 @@ def run_rank(case, drv):
 
     # ---- K: the Lean model on the same inputs
     float_tie = False
+    cut_tie = False
     if drv is not None:
         ents = []
         for i, inf in enumerate(infos):
@@ -763,7 +764,7 @@ def run_rank(case, drv):
             else:
                 fin_m = infos[int(ansc[1])]["name"]
                 # tied rank-1 rows: pandas' unstable sort decides which one comes first
-                if fin_m != cr["final"] and not float_tie and not (cr["rank"].get(fin_m) == 1 and cr["rank"].get(cr["final"]) == 1):
+                if fin_m != cr["final"] and not float_tie and not cut_tie and not (cr["rank"].get(fin_m) == 1 and cr["rank"].get(cr["final"]) == 1):
                     k.append(f"create_results final model: model {fin_m} code {cr['final']} (ranks {cr['rank']})")
 
     # ---- monitors: the property statement on the real result
